@@ -375,6 +375,14 @@ func (p *Path) callSSA(caller *Frame, callpos token.Pos, fn *ssa.Function, args 
 				return p.call(caller, callpos, r, args)
 			}
 		}
+		if len(p.summarize) > 0 && p.summarize[name] && !p.inSummaryOf[name] {
+			if p.inSummaryOf == nil {
+				p.inSummaryOf = map[string]bool{}
+			}
+			p.inSummaryOf[name] = true
+			defer func() { p.inSummaryOf[name] = false }()
+			return p.mergedCall(caller, fn, args)
+		}
 		if ic := p.eng.lookupIntercept(fn, name); ic != nil {
 			if res, handled := ic(fr, args); handled {
 				return res
